@@ -194,6 +194,9 @@ func c16Check(r *e1run, k int) {
 		if wantRes := fmt.Sprintf("%dx%d", ps.width, ps.height); v.Resolution != wantRes {
 			r.add("C16", "resolution", "RESOLUTION is %q, the current video parameter set (%d) describes %s (write %d); ops %s", v.Resolution, r.model.codecPar, wantRes, w, r.opsString())
 		}
+		if ps.fps == "" && v.FrameRate != "" && isH264(r.cfg.Tracks[lead].Kind) {
+			r.add("C16", "frame-rate", "FRAME-RATE is %q although the current video parameter set (%d) carries no timing information (write %d); ops %s", v.FrameRate, r.model.codecPar, w, r.opsString())
+		}
 		if ps.fps != "" {
 			gf, _ := strconv.ParseFloat(v.FrameRate, 64)
 			wf, _ := strconv.ParseFloat(ps.fps, 64)
